@@ -124,7 +124,9 @@ def _oracle(case, rng, thorough=False):
                 return f'episode {l}: shift_episodes is not (rows 0..n-2, states of rows 1..n-1)', {}
     for name, mk in regressors(rng, nu, thorough):
         try:
-            r1 = mk().fit(X, n_inputs=nu, episode_feature=ep)
+            # (the flag sometimes as a numpy bool, n_inputs as a numpy integer: what reductions over the data return)
+            r1 = mk().fit(X, n_inputs=(np.int64(nu) if rng.random() < 0.3 else nu),
+                          episode_feature=(np.bool_(ep) if rng.random() < 0.4 else ep))
             r2 = mk().fit(Xu, Xs, n_inputs=nu, episode_feature=ep)
             r3 = mk().fit(relayout(rng, X, ep), n_inputs=nu, episode_feature=ep)
             r4 = mk().fit(Xu_ref, Xs_ref, n_inputs=nu, episode_feature=ep)
@@ -163,7 +165,8 @@ def run(ctx):
         rec.clear()
         try:
             if bare:
-                Recorder().fit(X, n_inputs=c['nu'], episode_feature=c['ep'])
+                # (the flag as a numpy bool in some cases: what a reduction such as `X[:, 0].max() > 0` returns)
+                Recorder().fit(X, n_inputs=c['nu'], episode_feature=(np.bool_(c['ep']) if i % 4 == 0 else c['ep']))
                 body = pipes.mat_tokens([[int(v) for v in r] for r in c['rows']], c['ep'])
                 line = f"util shift {c['nu']} {body}"
             else:
@@ -173,7 +176,7 @@ def run(ctx):
                     lifting_functions=[(f'p{j}', pipes.build(s)) for j, s in enumerate(spec['ss'])] or None,
                     regressor=Recorder())
                 # nested pipelines inside use DataRegressor, only the outer regressor records
-                kp.fit(X, n_inputs=c['nu'], episode_feature=c['ep'])
+                kp.fit(X, n_inputs=c['nu'], episode_feature=(np.bool_(c['ep']) if i % 4 == 1 else c['ep']))
                 toks, _ = pipes.tokens(spec, kp)
                 body = pipes.mat_tokens([[int(v) for v in r] for r in c['rows']], c['ep'])
                 line = f"regargs {c['nx']} {c['nu']} {toks} {body}"
